@@ -1,4 +1,6 @@
 import SC.Proofs.KernGen
+import SC.Proofs.RIndex
+import SC.Proofs.RSuffix
 /-!
 # C14 — results do not depend on the CPU features or backend the build selects
 
@@ -19,6 +21,15 @@ theorem generic_indexNonASCII (s : Bytes) : genIndexNonASCII s 0 = S.indexNonASC
 /-- functions that never consult the backend switches -/
 theorem compare_backend_free (cfg : A.Cfg) (n a : Bool) (s t : Bytes) :
     A.Compare { cfg with native := n, arm64 := a } s t = A.Compare cfg s t := rfl
+
+/-- the `NativeIndex` / portable branches of `indexRuneCase` and `Index`, and the two `Cutover` formulas,
+    give the same results: every configuration refines the same specification -/
+theorem index_backend_free (cfg : A.Cfg) (n a : Bool) (s sub : Bytes) (r : Int) :
+    A.Index { cfg with native := n, arm64 := a } s sub = A.Index cfg s sub ∧
+    A.IndexRune { cfg with native := n, arm64 := a } s r = A.IndexRune cfg s r ∧
+    A.HasPrefix { cfg with native := n, arm64 := a } s sub = A.HasPrefix cfg s sub ∧
+    A.HasSuffix { cfg with native := n, arm64 := a } s sub = A.HasSuffix cfg s sub := by
+  simp only [A.Index_eq, A.IndexRune_eq, A.HasPrefix_eq, A.HasSuffix_eq, and_self]
 
 example : genIndexByte [0x78, 0x4B, 0x6B] 0x6B = 1 ∧ genCount [0x78, 0x4B, 0x6B] 0x6B = 2 := by decide +kernel
 end C14
